@@ -309,6 +309,19 @@ def recon_checks(ctx, sp, mr, rng):
                     break
         except Exception as e:
             bad.setdefault("recon-exception", ("non-Cartesian SenseRecon raised %r" % e, {"kind": "impl-exception"}))
+        # scale of the data: the reconstruction is linear in the k-space data, recon(s*y) = s*recon(y), also for tiny s and in single precision
+        for sc, dt, tolr in ((1e-9, np.complex128, 1e-5), (1e-12, np.complex128, 1e-5), (1e-6, np.complex64, 2e-3)):
+            ctx.count("recon:SenseRecon-scaled", key=(r, sc, str(dt)), sample={"ishape": ish, "coils": nc, "scale": sc, "dtype": np.dtype(dt).name})
+            try:
+                x1 = mr.app.SenseRecon(ksp.astype(dt), mps.astype(dt), lamda=0.05, max_iter=200, show_pbar=False).run()
+                xs = mr.app.SenseRecon((ksp * sc).astype(dt), mps.astype(dt), lamda=0.05, max_iter=200, show_pbar=False).run()
+                e = float(np.linalg.norm(np.asarray(xs) / sc - np.asarray(x1)) / (np.linalg.norm(x1) + 1e-300))
+                if not e <= tolr:
+                    bad.setdefault("senserecon-scale", ("SenseRecon is not homogeneous in the k-space data: recon(%g*y)/%g differs from recon(y) by %.3g (%s)"
+                                                        % (sc, sc, e, np.dtype(dt).name),
+                                                        {"kind": "oracle", "ishape": ish, "coils": nc, "scale": sc, "dtype": np.dtype(dt).name, "relative_difference": e}))
+            except Exception as ex:
+                bad.setdefault("recon-exception", ("SenseRecon on scaled data raised %r" % ex, {"kind": "impl-exception"}))
         # dominant l2 term (lamda above the largest eigenvalue of A^H A): default step sizes must account for it
         A = mr.linop.Sense(mps)
         lbig = 2.0 * float(np.max(np.sum(np.abs(mps) ** 2, axis=0)))          # ||A^H A|| = max_r sum_c |S_c(r)|^2 for Cartesian SENSE
